@@ -5,7 +5,8 @@
     (replay: original; iterate: previous round's) input with state_(k-1) visible;
     state_k = state_(k-1) + sum of the body's output values (global fold of the local folds);
     stop exactly when the condition fails or k reaches the bound; at least one round (N1). *)
-From Noir Require Import Model.Pipe Model.PipeDist Proofs.PipeProofs.
+From Noir Require Import Model.Pipe Model.PipeDist Model.Loop Proofs.PipeProofs Proofs.LoopProofs.
+From Coq Require Import Permutation.
 Open Scope Z_scope.
 
 (** replay: whatever the distribution of the body in every round, the loop result is the
@@ -32,6 +33,34 @@ Proof. exact ev1_nested. Qed.
 Theorem C10_in_pipelines : forall (p : pipe) (d : dist), dexec p d -> Permutation (flat d) (denote p).
 Proof. exact dexec_sound. Qed.
 
+(** ** The leader: next state = global fold of that round's deltas, whatever their arrival
+    order; the loop stops at the first round K >= 1 where the condition is false or the bound
+    is reached, then restarts from the initial state (nested loops restart cleanly) *)
+Theorem C10_leader : forall (St D : Type) (global : St -> D -> St) (cond : St -> bool) (init : St) (max : nat),
+  (forall s a b, global (global s a) b = global (global s b) a) ->
+  forall (K : nat) (crounds rounds : list (list D)),
+  Forall2 (@Permutation D) crounds rounds -> (1 <= K <= length crounds)%nat ->
+  (forall j, (1 <= j < K)%nat -> cond (state_at St D global init crounds j) = true /\ (j < max)%nat) ->
+  cond (state_at St D global init crounds K) = false \/ (max <= K)%nat ->
+  lrun St D global cond init max (linit St init) rounds =
+  (map (fun j => (true, state_at St D global init crounds j)) (seq 1 (K - 1)) ++
+     (false, init) :: fst (lrun St D global cond init max (linit St init) (skipn K crounds)),
+   state_at St D global init crounds K :: snd (lrun St D global cond init max (linit St init) (skipn K crounds))).
+Proof. exact leader_spec. Qed.
+
+(** ** State publication on a host (generation counter + barrier): whenever a body replica
+    reads the shared state while processing round r, no write is in progress and the cell
+    holds exactly the state produced by round r-1 — never an older or a newer one — for any
+    number of loop heads and body replicas on the host. The guards of the model's feedback
+    rule are the engine's causality (the leader answers round k only after every body-end
+    replica delivered its delta of round k); Condvar/Barrier are trusted primitives. *)
+Theorem C10_state_read_is_previous : forall (H B : nat) (s : host) (b r : nat),
+  hreach H B s -> body_reads B s b r -> writing s = false /\ S (cell s) = r.
+Proof. exact state_read_is_previous. Qed.
+Theorem C10_unlock_is_locked : forall (H B : nat) (s : host) (r : nat),
+  hreach H B s -> lead s = HPost r -> Nat.odd (gen s) = true.
+Proof. exact unlock_is_locked. Qed.
+
 (** N1: a bound of 0 still runs one round *)
 Example C10_bound_zero_runs_once :
   denote (PReplay (PSrc true [(0, 3); (1, 4)]) 0 1000 [OAddState]) = [(0, 7)].
@@ -40,5 +69,7 @@ Example C10_state_feeds_next_round :
   denote (PReplay (PSrc true [(0, 1); (0, 2)]) 3 1000 [OAddState]) = [(0, 39)].
 Proof. vm_compute. reflexivity. Qed.
 
+Print Assumptions C10_leader.
+Print Assumptions C10_state_read_is_previous.
 Print Assumptions C10_replay.
 Print Assumptions C10_iterate.
